@@ -185,4 +185,15 @@ for _k in ('C08', 'C09', 'C10', 'C15', 'C16', 'C19'):
 PROPS['C10']['rule'] = ('dump and Display before/after every failing call, and every search after a failing call compared with the same search before it; insert followed by delete of the same '
     'template: dump, Display and every search compared with the state before the insert; non-trivial = failing call')
 
+PROPS['C11']['level'] = 'proof'
+PROPS['C11']['explanation'] = ('Closed theorems (Properties/C11.v) against the documented language written over lists (Spec/Grammar.v: wellformed_exp for one expansion - leading \'/\', balanced braces, '
+    'the four parameter forms with non-empty names free of : * { } ( ) /, non-empty valid constraints, no touching parameters, no repeated name, backslash makes the next byte literal, a trailing backslash is '
+    'literal, everything else verbatim): C11_one_expansion_parsed_as_documented - for EVERY non-empty valid UTF-8 text the cursor-based parser model of one expansion accepts iff wellformed_exp does and '
+    'then returns exactly its parts (C11_one_expansion_accepted_iff_wellformed, ..._rejected_iff_illformed); C11_parenthesis_free_template_parsed_as_documented - for every template without \'(\' and \')\' bytes the '
+    'whole parser computes template_spec. Proof: index-vs-suffix lemmas for static_part/static_text, brace_scan/brace_content, find_colon/split_colon, the parameter tail, and the loop invariant '
+    '(previous-parameter flag = last seen parameter ends at the cursor; seen names agree); valid UTF-8 cut before an ASCII delimiter stays valid, so the parser\'s from_utf8 checks never fire. '
+    'Partial, named: that expand_optional_groups enumerates expansions_spec (balanced non-empty parentheses, keep/drop choices, order) has no theorem yet; it is decided by the Grammar oracle: '
+    'template_spec vs the real parser hook on every string of length <= 5/6 over the 11-symbol syntax alphabet and on random well/ill-formed templates (incl. semantic fault injection), plus the model parser '
+    'vs the real one (Parse). invalid_chars_documented is re-proved on the constant regenerated from src/parser.rs every run.')
+
 NOT_APPLICABLE = {}
